@@ -1,6 +1,9 @@
 //! vcheck: property-based checks of gneiss-mqtt.  `vcheck <Cxx> [--tier quick|thorough] [--seed N] [--replay file]`
 #![allow(dead_code, unused_variables, clippy::all)]
 
+mod abs;
+mod c02;
+mod c03;
 mod gen;
 mod model;
 mod mon;
@@ -72,6 +75,8 @@ fn main() {
     let opts = RunOptions { tier, seed, shards, verif_root: root, replay, cases_override, strict };
     let code = match id.as_str() {
         "C01" => run_property(&props_engine::c01(), &opts),
+        "C02" => run_property(&c02::C02, &opts),
+        "C03" => run_property(&c03::C03, &opts),
         "C04" => run_property(&props_engine::c04(), &opts),
         "C05" => run_property(&props_engine::c05(), &opts),
         "C06" => run_property(&props_engine::c06(), &opts),
